@@ -22,6 +22,7 @@ import (
 	"path/filepath"
 	"runtime"
 	"sort"
+	"strings"
 	"sync"
 
 	"verifharness/internal/hx"
@@ -175,9 +176,14 @@ func tail(b []byte, n int) string {
 
 func main() {
 	worker := flag.String("worker", "", "internal: run the mem cases of this file and exit")
+	raceWorker := flag.String("race-worker", "", "internal: run the race cases of this file and exit")
 	fl := hx.ParseFlags()
 	if *worker != "" {
 		workerMain(*worker)
+		return
+	}
+	if *raceWorker != "" {
+		raceWorkerMain(*raceWorker)
 		return
 	}
 	s := hx.NewSink(fl, coqHeader, "case")
@@ -240,11 +246,25 @@ func main() {
 			nk := r.Range(1, 2)
 			add("mem", "random", randomScript(r, nk, r.Range(5, 10), i%6 == 0))
 		}
-		// 5. polling scripts (Redis) and free-running stress
+		// 5. bursts: several actions issued without waiting for quiescence in between
+		burstCases(fl, add)
+		// 6. polling scripts (Redis) and free-running stress
 		cases = append(cases, pollCases(fl, &id)...)
 		cases = append(cases, stressCases(fl, &id)...)
+		// 7. tight free-running race rounds, state checked through the hook
+		cases = append(cases, raceCases(fl, &id)...)
 	}
 
+	// development aid: C07_ONLY=<prefix> keeps the families whose name starts with the prefix
+	if only := os.Getenv("C07_ONLY"); only != "" && fl.From == "" {
+		var keep []Case
+		for _, c := range cases {
+			if strings.HasPrefix(c.Fam, only) {
+				keep = append(keep, c)
+			}
+		}
+		cases = keep
+	}
 	var mem []Case
 	for _, c := range cases {
 		if c.Kind == "mem" {
@@ -256,6 +276,11 @@ func main() {
 	var wg sync.WaitGroup
 	wg.Add(1)
 	go func() { defer wg.Done(); pollRes = runPollCases(cases) }()
+	// the race rounds run in their own processes next to the script workers: the competition for the
+	// CPUs is welcome (a goroutine that loses its CPU between two critical sections is what they look for)
+	var raceRes map[uint64]raceResult
+	wg.Add(1)
+	go func() { defer wg.Done(); raceRes = runRaceCases(fl, cases) }()
 	memRes, crashed := runMemCases(fl, mem)
 	wg.Wait()
 
@@ -299,6 +324,24 @@ func main() {
 			if len(r.Other) > 0 {
 				s.DirectViolation(c.ID, "redis waiter: unexpected result / did not return after its context was cancelled", r.Other)
 			}
+		case "race":
+			r := raceRes[c.ID]
+			for k, n := range r.Counts {
+				s.Dist[k] += n
+			}
+			s.Count("fam:race")
+			if len(r.Violations) > 0 {
+				f := r.Violations[0].Round
+				c.Focus = &f
+			}
+			s.Add(c, r.Coq, true)
+			if len(r.Violations) > 0 {
+				s.DirectViolation(c.ID, "race round: "+r.Violations[0].What, r.Violations)
+			}
+			if len(r.Slow) >= 1 {
+				s.DirectViolation(c.ID, "race rounds: promptness bound of 2 s exceeded in 3 runs in a row", r.Slow)
+			}
+			s.Extra[fmt.Sprintf("race_p%d_w%d", c.Procs, c.NW)] = r.Summary
 		case "stress":
 			r := runStressCase(c)
 			for k, n := range r.Counts {
@@ -320,6 +363,8 @@ func main() {
 	}
 	sort.Strings(keys)
 	s.Close("mem: every sequence of depth d over a 12-letter one-key alphabet; every order of multisets of six actions on two keys; directed expiry scripts (each method first to touch an expired record); seeded random scripts of 5-10 steps over the full alphabet (2 keys, expiry none/long/past/short). "+
+		"bursts: after one/two parked calls (one or two keys) every order of every selection of three actions out of cancel/put/cas/del/create/start/get issued back-to-back without a quiescence wait (by one goroutine under GOMAXPROCS 1/2/4, or one goroutine per action released together), random bursts of 2-4 actions with busy-waits; the observation after the burst must be explained by some interleaving of the LTS labels (search in Coq). "+
 		"poll: scripts on the Redis client over miniredis. stress: 50 waiters, 8 writers, random cancels on each backend. "+
+		"race: batches of free-running rounds (2-12 calls start within 0.3-8 us of one writer's put/put2/cas/del/putmany/del+create/no-op) in processes with GOMAXPROCS 2..16; after the writer finished the waiter-table count must not exceed the number of calls out with the record's current version (hook), results checked against the key's states; sampled rounds re-checked in Coq. "+
 		"distinct = by content hash; non-trivial = at least 3 executed steps, at least one waiter and at least one observed return", false)
 }
